@@ -9,7 +9,7 @@
 (*   term  is there a line end behind the last line                                                                                *)
 (*   deco  blanks, tabs, blank + tab in front of / behind / between the words; an empty line first / between / last; a last line   *)
 (*         of blanks only; a remark line first / last; ^Z as the last byte / in front of every line end; the first / the last      *)
-(*         line filled with blanks to 254, 255 (the manual's maximum) and 256 characters                                           *)
+(*         line filled with blanks to 254, 255 (the manual's maximum) and beyond (undecided by the manual)                         *)
 (*   from  the file is named on the command line (@k) or by the environment variable (ASCMD=@k)                                    *)
 (* (no occurrence at all gives the empty file, the file that is one line end, one blank, one remark without line end ...).          *)
 (* KThin = 0: all shapes; KThin = k > 0: sequences of two and more occurrences get every (cut, term) with the plain decoration and  *)
@@ -43,22 +43,26 @@ SpecK == Init /\ [][NextK]_seq
 
 \* ---- shapes ---------------------------------------------------------------------------------------------------------
 Decos == <<"none", "lead_sp", "lead_tab", "lead_mix", "wide", "sep_tab", "sep_sptab", "sep_tabsp", "trail_sp", "trail_tab",
-           "trail_sptab", "trail_tabsp", "empty_first", "empty_mid", "empty_last", "blank_last", "remark_first", "remark_last",
-           "cz_end", "cz_eol", "pad255_first", "pad255_last", "pad254_last", "pad256_last">>
+           "trail_sptab", "empty_first", "empty_mid", "empty_last", "blank_last", "remark_first", "remark_last",
+           "cz_end", "cz_eol", "pad255_first", "pad255_last", "pad254_last", "long_last">>
+\* (tab + blank BEHIND a line is left out: BlankBeforeTab glues the tab to the last word, and what a glued ARGUMENT means is the
+\*  business of the callback - `-D A=2<TAB>` defines A, `-cpu Z80<TAB>` is refused - which the atoms of CmdLine.tla cannot say)
 Eols == <<"lf", "crlf", "mixed">>
 DecoIdx(d) == CHOOSE i \in 1..Len(Decos) : Decos[i] = d
 
 Lead(d)  == CASE d = "lead_sp" -> <<SP(1)>> [] d = "lead_tab" -> <<TAB>> [] d = "lead_mix" -> <<SP(2), TAB>> [] OTHER -> <<>>
 Sep(d)   == CASE d = "wide" -> <<SP(3)>> [] d = "sep_tab" -> <<TAB>> [] d = "sep_sptab" -> <<SP(1), TAB>>
               [] d = "sep_tabsp" -> <<TAB, SP(1)>> [] OTHER -> <<SP(1)>>
-Trail(d) == CASE d = "trail_sp" -> <<SP(2)>> [] d = "trail_tab" -> <<TAB>> [] d = "trail_sptab" -> <<SP(1), TAB>>
-              [] d = "trail_tabsp" -> <<TAB, SP(1)>> [] OTHER -> <<>>
+Trail(d) == CASE d = "trail_sp" -> <<SP(2)>> [] d = "trail_tab" -> <<TAB>> [] d = "trail_sptab" -> <<SP(1), TAB>> [] OTHER -> <<>>
 Inter(ws, sep) == Flat([i \in 1..Len(ws) |-> (IF i > 1 THEN sep ELSE <<>>) \o <<W(ws[i])>>])
 TextLine(ws, d) == Lead(d) \o Inter(ws, Sep(d)) \o Trail(d) \o (IF d = "cz_eol" THEN <<CZ>> ELSE <<>>)
 \* blanks added behind the first word (behind the line if it has less than two words) up to len characters
 PadTo(l, len) == LET k == len - Bytes(l)
                  IN IF k <= 0 THEN l ELSE IF Len(l) >= 2 /\ l[2].c = "sp" THEN [l EXCEPT ![2].n = @ + k] ELSE Append(l, SP(k))
-PadLen(d) == CASE d \in {"pad255_first", "pad255_last"} -> 255 [] d = "pad254_last" -> 254 [] d = "pad256_last" -> 256 [] OTHER -> 0
+PadLen(d) == CASE d \in {"pad255_first", "pad255_last"} -> 255 [] d = "pad254_last" -> 254 [] OTHER -> 0
+\* beyond the manual's maximum: the first word and the blanks behind it fill the reader's buffer exactly, the rest of the line
+\* arrives as a line of its own (LongLineSplit); a line of less than two words: 256 characters, the last one a blank
+LongLine2(l) == IF Len(l) >= 2 /\ l[2].c = "sp" THEN [l EXCEPT ![2].n = (LINEBUF - 1) - l[1].n] ELSE PadTo(l, LINEBUF)
 RemarkLine == <<W(Comment), SP(1), W(Plain("text"))>>
 
 GroupOf(sh, i) == 1 + Cardinality({c \in sh.cut : c < i})
@@ -67,8 +71,9 @@ FileOf(s, sh) ==
       nl == Cardinality(sh.cut) + 1
       ws(j) == Flat([i \in 1..Len(s) |-> IF GroupOf(sh, i) = j THEN Templates(Prog)[s[i]].ws ELSE <<>>])
       bl == [j \in 1..nl |-> LET l == TextLine(ws(j), d)
-                             IN IF (d = "pad255_first" /\ j = 1) \/ (d \in {"pad255_last", "pad254_last", "pad256_last"} /\ j = nl)
-                                THEN PadTo(l, PadLen(d)) ELSE l]
+                             IN IF (d = "pad255_first" /\ j = 1) \/ (d \in {"pad255_last", "pad254_last"} /\ j = nl)
+                                THEN PadTo(l, PadLen(d))
+                                ELSE IF d = "long_last" /\ j = nl THEN LongLine2(l) ELSE l]
       pl == CASE d = "empty_first"  -> << <<>> >> \o bl
               [] d = "empty_mid"    -> Flat([j \in 1..nl |-> IF j < nl THEN <<bl[j], <<>>>> ELSE <<bl[j]>>])
               [] d = "empty_last"   -> bl \o << <<>> >>
